@@ -1,7 +1,9 @@
 /* sched_udeal: contenders on one real udeal (real eventfd, mock pumps/event
  * loops) under the deterministic scheduler.  Emits traces for
  * Udeal_Trace.tla.  (C08)
- * usage: sched_udeal <nthreads> <rounds> <mode> [args]
+ * usage: sched_udeal <nthreads> <rounds>[a<t>] <mode> [args]
+ *   a<t>: contender t gives up (udeal_abort) in a round in which it finds itself waiting before its
+ *   watcher has had a chance to run (it was not the first to register)
  */
 #include <stdio.h>
 #include <stdlib.h>
@@ -19,7 +21,7 @@
 #include "upipe/udeal.h"
 #include "vsched.h"
 
-static int NT, ROUNDS;
+static int NT, ROUNDS, ABORTER = -1;
 static struct udeal deal;
 static bool inited;
 
@@ -49,9 +51,11 @@ static bool can_run(void *a)
     return started[t] && poll(&p, 1, 0) == 1 && (p.revents & POLLIN);
 }
 
+static bool tried[VS_MAXT];
 static void grab_cb(struct upump *p)
 {
     int t = (int)(p - pumps);
+    tried[t] = true;
     if (!udeal_grab(&deal)) { log_ev('F', t); return; }
     log_ev('E', t);
     vs_yield(VS_KIND_USER, NULL);      /* the critical section */
@@ -66,7 +70,14 @@ static void contender(void *arg)
     for (int r = 0; r < ROUNDS; r++) {
         round_done[t] = false;
         log_ev('S', t);
+        tried[t] = false;
         udeal_start(&deal, &pumps[t]);
+        if (t == ABORTER && !round_done[t] && !tried[t]) {
+            /* not the first to register: the watcher has not run yet - give up */
+            log_ev('A', t);
+            udeal_abort(&deal, &pumps[t]);
+            continue;
+        }
         while (!round_done[t]) {
             log_ev('Z', t);
             vs_wait(can_run, (void *)(intptr_t)t);
@@ -111,12 +122,12 @@ static bool finish(void *ctx, const uint8_t *sched, int len, bool stuck)
     while (seen[i]) { if (seen[i] == h) return true; i = (i + 1) & mask; }
     seen[i] = h;
     nunique++;
-    printf("{\"e\":\"Reset\",\"nt\":%d,\"rounds\":%d,\"id\":%ld,\"sched\":\"", NT, ROUNDS, out_id++);
+    printf("{\"e\":\"Reset\",\"nt\":%d,\"rounds\":%d,\"aborter\":%d,\"id\":%ld,\"sched\":\"", NT, ROUNDS, ABORTER, out_id++);
     for (int k = 0; k < len; k++) putchar('0' + sched[k]);
     printf("\"}\n");
     for (int k = 0; k < nev; k++) {
         const char *n = evs[k].e == 'S' ? "Start" : evs[k].e == 'E' ? "Enter" : evs[k].e == 'L' ? "Leave" :
-                        evs[k].e == 'Z' ? "Sleep" : evs[k].e == 'W' ? "Wake" : "GrabFail";
+                        evs[k].e == 'Z' ? "Sleep" : evs[k].e == 'W' ? "Wake" : evs[k].e == 'A' ? "Abort" : "GrabFail";
         printf("{\"e\":\"%s\",\"t\":%d}\n", n, evs[k].t);
     }
     if (crashed) printf("{\"e\":\"Crash\"}\n");
@@ -138,6 +149,7 @@ int main(int argc, char **argv)
     if (argc < 5) { fprintf(stderr, "usage\n"); return 2; }
     NT = atoi(argv[1]);
     ROUNDS = atoi(argv[2]);
+    if (strchr(argv[2], 'a')) ABORTER = atoi(strchr(argv[2], 'a') + 1);
     seen = calloc(1ULL << HBITS, sizeof(uint64_t));
     vs_install_hooks();
     vs_install_crash_handler(crash_dump);
